@@ -30,6 +30,7 @@ def run(ctx):
                          "continuation segments are not handed to each other's handler")
     res.not_decided += ["exactly-once delivery under every interleaving (history/schedule quantifier): only the structural premises are decided"]
     D.rule_segtype_subject(res, "C05-R5", m)
+    D.rule_classifier_reads_type_only(res, "C05-R5", m)
     D.rule_keyed_access(res, "C05-R1", m)
     D.rule_key_equality(res, "C05-R2", m)
     D.rule_modular_successor(res, "C05-R3", m)
